@@ -80,6 +80,8 @@ class Register:
                 and alias_slice.start < 0
             ):
                 raise JaqalError("Index out of range.")
+            if alias_slice.step == 0 and not isinstance(alias_slice.step, bool):
+                raise JaqalError(f"Step of map {name} cannot be zero.")
             if (
                 isinstance(alias_slice.start, AnnotatedValue)
                 or isinstance(alias_slice.stop, AnnotatedValue)
